@@ -20,7 +20,6 @@ struct Park {
 thread_local! {
     // const-initialised, no destructor: usable from inside the allocator at any time
     static ACTIVE: Cell<bool> = const { Cell::new(false) };
-    static REUSED: Cell<u64> = const { Cell::new(0) };
     static PARK: Park = const { Park { blocks: UnsafeCell::new([[std::ptr::null_mut(); SLOTS]; MAX_SIZE + 1]), counts: UnsafeCell::new([0; MAX_SIZE + 1]) } };
 }
 
@@ -29,9 +28,11 @@ pub fn in_library(on: bool) -> bool {
     ACTIVE.try_with(|a| a.replace(on)).unwrap_or(false)
 }
 
-/// Number of allocations on this thread that were given a parked (reused) address so far.
-pub fn reused_count() -> u64 {
-    REUSED.try_with(|r| r.get()).unwrap_or(0)
+static REUSED: std::sync::atomic::AtomicU64 = std::sync::atomic::AtomicU64::new(0);
+
+/// Number of allocations (all threads) that were given a parked (reused) address so far.
+pub fn reused_total() -> u64 {
+    REUSED.load(std::sync::atomic::Ordering::Relaxed)
 }
 
 /// Give the parked blocks of the calling thread back to the system allocator (end of a simulated thread).
@@ -67,7 +68,7 @@ unsafe impl GlobalAlloc for SimAlloc {
                 .ok()
                 .flatten();
             if let Some(ptr) = hit {
-                let _ = REUSED.try_with(|r| r.set(r.get() + 1));
+                REUSED.fetch_add(1, std::sync::atomic::Ordering::Relaxed);
                 return ptr;
             }
         }
